@@ -680,4 +680,51 @@ theorem atPositions_positions (P : Res → Bool) (rs : List Res) :
     | false =>
       simp only [Bool.false_eq_true, if_false, List.nil_append, e, ih, List.filter_cons, hP]
 
+
+/-! ## registration keeps the index consistent -/
+
+theorem positions_append_singleton (P : Res → Bool) (rs : List Res) (r : Res) :
+    positions P (rs ++ [r]) = positions P rs ++ (if P r then [rs.length] else []) := by
+  unfold positions
+  rw [List.length_append, List.length_singleton, List.range_succ, List.filter_append]
+  congr 1
+  · apply List.filter_congr
+    intro i hi
+    have hi' : i < rs.length := List.mem_range.mp hi
+    rw [List.getElem?_append_left hi']
+  · simp [List.filter_cons]
+
+theorem bucketOf_indexAdd (idx : List (Str × List Nat)) (k k' : Str) (i : Nat) :
+    bucketOf (indexAdd idx k i) k' = if k' = k then bucketOf idx k' ++ [i] else bucketOf idx k' := by
+  induction idx with
+  | nil =>
+    by_cases h : k' = k
+    · subst h; simp [indexAdd, bucketOf]
+    · have : (k == k') = false := by simpa using fun e => h e.symm
+      simp [indexAdd, bucketOf, h, this]
+  | cons e es ih =>
+    simp only [indexAdd]
+    by_cases he : e.1 = k
+    · have hb : (e.1 == k) = true := by simpa using he
+      simp only [hb, if_true]
+      by_cases h : k' = k
+      · subst h
+        have : (e.1 == k') = true := hb
+        simp [bucketOf, List.find?_cons, this]
+      · have : (e.1 == k') = false := by rw [he]; simpa using fun e => h e.symm
+        simp [bucketOf, List.find?_cons, this, h]
+    · have hb : (e.1 == k) = false := by simpa using he
+      simp only [hb]
+      by_cases h : e.1 = k'
+      · have hb' : (e.1 == k') = true := by simpa using h
+        have hne : k' ≠ k := by rw [← h]; exact he
+        simp [bucketOf, List.find?_cons, hb', hne]
+      · have hb' : (e.1 == k') = false := by simpa using h
+        have : bucketOf (e :: indexAdd es k i) k' = bucketOf (indexAdd es k i) k' := by
+          simp [bucketOf, List.find?_cons, hb']
+        have this' : bucketOf (e :: es) k' = bucketOf es k' := by
+          simp [bucketOf, List.find?_cons, hb']
+        simp only [Bool.false_eq_true, if_false]
+        rw [this, this', ih]
+
 end Aio.C14
